@@ -215,17 +215,17 @@ Section Trace.
   Qed.
 
   (* ---------------- the trace of triangulate ---------------- *)
-  Definition tri_math_row (lm : list nat) (dist : mat F) (mu : vec F) (E : @eig_result F) (d : nat)
-             (x : nat) : vec F :=
-    tri_row (length lm) (tri_divide d E) (tri_delta lm dist mu x).
+  Definition tri_math_row (keep : nat -> bool) (lm : list nat) (dist : mat F) (mu : vec F)
+             (E : @eig_result F) (d : nat) (x : nat) : vec F :=
+    tri_row (length lm) (tri_divide d keep E) (tri_delta lm dist mu x).
 
-  Lemma triangulate_shape N d lm dist mu_size mu (E : @eig_result F) ws :
-    triangulate N d lm dist mu_size mu E = LOk ws ->
+  Lemma triangulate_shape N d keep lm dist mu_size mu (E : @eig_result F) ws :
+    triangulate N d keep lm dist mu_size mu E = LOk ws ->
     Forall (fun l => l < N) lm /\
     (lm <> [] -> er_cols E = d /\ length lm <= er_rows E) /\
     d <= er_cols E /\ d <= er_size E /\
     ws = copy_writes E 0 lm ++
-         map (fun x => (x, tri_math_row lm dist mu E d x))
+         map (fun x => (x, tri_math_row keep lm dist mu E d x))
              (filter (fun x => negb (existsb (Nat.eqb x) lm)) (seq 0 N)) /\
     ((exists x, x < N /\ ~ In x lm) -> mu_size = length lm /\ er_rows E = length lm).
   Proof.
@@ -269,16 +269,16 @@ Section Trace.
 
   (* every row index < N is written exactly once; nothing else is written;
      landmark rows are copies of first.row(position); the others carry the triangulation *)
-  Theorem triangulate_trace N d lm dist mu_size mu (E : @eig_result F) ws :
+  Theorem triangulate_trace N d keep lm dist mu_size mu (E : @eig_result F) ws :
     NoDup lm ->
-    triangulate N d lm dist mu_size mu E = LOk ws ->
+    triangulate N d keep lm dist mu_size mu E = LOk ws ->
     (forall x, x < N -> count_occ Nat.eq_dec (map fst ws) x = 1) /\
     (forall x, In x (map fst ws) -> x < N) /\
     (forall i, i < length lm -> last_write ws (lmk lm i) = Some (mrow (er_first E) i)) /\
     (forall x, x < N -> ~ In x lm ->
-       last_write ws x = Some (tri_math_row lm dist mu E d x)).
+       last_write ws x = Some (tri_math_row keep lm dist mu E d x)).
   Proof.
-    intros Hnd H. destruct (triangulate_shape _ _ _ _ _ _ _ _ H) as [Hf [Hc [Hd1 [Hd2 [Hw _]]]]].
+    intros Hnd H. destruct (triangulate_shape _ _ _ _ _ _ _ _ _ H) as [Hf [Hc [Hd1 [Hd2 [Hw _]]]]].
     set (rest := filter (fun x => negb (existsb (Nat.eqb x) lm)) (seq 0 N)) in *.
     assert (Hfst : map fst ws = lm ++ rest).
     { rewrite Hw, map_app, copy_writes_fst, map_map. cbn [fst]. rewrite map_id. reflexivity. }
@@ -312,10 +312,10 @@ Section Trace.
   Qed.
 
   (* no out-of-range access when the shapes agree *)
-  Theorem triangulate_total N d lm dist mu (E : @eig_result F) :
+  Theorem triangulate_total N d keep lm dist mu (E : @eig_result F) :
     Forall (fun l => l < N) lm ->
     er_rows E = length lm -> er_cols E = d -> d <= er_size E ->
-    exists ws, triangulate N d lm dist (length lm) mu E = LOk ws.
+    exists ws, triangulate N d keep lm dist (length lm) mu E = LOk ws.
   Proof.
     intros Hf Hr Hc Hs. unfold triangulate.
     destruct (tri_copy_total N d E lm 0 (repeat true N)) as [tp Ht];
@@ -337,15 +337,23 @@ Section TraceField.
   Lemma fdiv_def (p q : F) : p / q = p * / q.
   Proof. exact (Fdiv_def (@Fth F Fo Ff) p q). Qed.
 
-  (* the row the code computes IS -1/2 pinv(Y_L) (delta - mu), with Y_L = first (scaled
-     eigenvectors) and lam = second; no hypothesis on lam is needed for this algebraic identity *)
-  Lemma tri_math_row_spec lm dist mu (E : @eig_result F) d x :
-    veq d (tri_math_row lm dist mu E d x)
-          (tri_spec_row (length lm) lm dist mu (er_first E) (er_second E) x).
+  (* the row the code computes: for a kept column it IS -1/2 pinv(Y_L) (delta - mu), with
+     Y_L = first (scaled eigenvectors) and lam = second (no hypothesis on lam is needed for this
+     algebraic identity); for a dropped column (null eigenvalue) it is 0 *)
+  Lemma tri_math_row_spec keep lm dist mu (E : @eig_result F) d x c :
+    c < d ->
+    tri_math_row keep lm dist mu E d x c =
+      if keep c then tri_spec_row (length lm) lm dist mu (er_first E) (er_second E) x c else 0.
   Proof.
-    intros c Hc. unfold tri_math_row, tri_row, tri_divide, tri_delta, tri_spec_row.
-    apply Nat.ltb_lt in Hc. rewrite Hc.
-    rewrite fdiv_def, <- sumn_mul_l, <- sumn_mul_r. apply sumn_ext. intros t _.
-    rewrite fdiv_def. ring.
+    intros Hc. unfold tri_math_row, tri_row, tri_divide, tri_delta, tri_spec_row.
+    apply Nat.ltb_lt in Hc. rewrite Hc. destruct (keep c).
+    - rewrite fdiv_def, <- sumn_mul_l, <- sumn_mul_r. apply sumn_ext. intros t _.
+      rewrite fdiv_def. ring.
+    - apply sumn_zero'. intros t _. ring.
   Qed.
+
+  (* the code before 7bdf733 divides every selected column by its eigenvalue, null or not *)
+  Lemma tri_divide_old_divides (E : @eig_result F) d r c :
+    c < d -> tri_divide d keep_all E r c = er_first E r c / er_second E c.
+  Proof. intros Hc. unfold tri_divide, keep_all. apply Nat.ltb_lt in Hc. rewrite Hc. reflexivity. Qed.
 End TraceField.
